@@ -38,11 +38,16 @@ pub fn sample_covariance(x: &[f64], y: &[f64]) -> f64 {
 pub fn sample_covariance_onepass(x: &[f64], y: &[f64]) -> f64 {
     assert_eq!(x.len(), y.len());
     let n = x.len();
-    (0..n)
-        .into_iter()
-        .map(|i| (x[i] - x[0]) * (y[i] - y[0]))
-        .sum::<f64>()
-        / (n - 1) as f64
+    // shifted data algorithm: cov = (sum(dx * dy) - sum(dx) * sum(dy) / n) / (n - 1) with
+    // dx = x - x[0], dy = y - y[0]
+    let (mut sxy, mut sx, mut sy) = (0., 0., 0.);
+    for i in 0..n {
+        let (dx, dy) = (x[i] - x[0], y[i] - y[0]);
+        sxy += dx * dy;
+        sx += dx;
+        sy += dy;
+    }
+    (sxy - sx * sy / n as f64) / (n - 1) as f64
 }
 
 /// Calculates the covariance between two vectors x and y. This is a stable one-pass online algorithm.
@@ -60,10 +65,11 @@ pub fn sample_covariance_online(x: &[f64], y: &[f64]) -> f64 {
         let dy = j - meany;
         meanx += dx / n;
         meany += dy / n;
-        c += dx * dy;
+        // co-moment update uses the deviation from the old mean of x and the NEW mean of y
+        c += dx * (j - meany);
     }
 
-    c / n
+    c / (n - 1.)
 }
 
 #[cfg(test)]
